@@ -74,10 +74,11 @@ def main(argv):
     import re as _re
     for r in results:
         txt = r.g.text()
-        for ln, line in enumerate(txt.split('\n'), 1):
+        tl = txt.split('\n')
+        for ln, line in enumerate(tl, 1):
             if _re.search(r'\bassume\s*\(', line) and 'assume_specification' not in line:
                 undecided.append('unexpected assume(..) in generated unit %s line %d' % (r.unit, ln))
-            if 'admit()' in line and 'broadcast proof fn' not in line:
+            if 'admit()' in line and not any('broadcast proof fn' in x for x in tl[max(0, ln - 4):ln]):
                 undecided.append('unexpected admit() outside a shim axiom in generated unit %s line %d' % (r.unit, ln))
     # vacuity guard on every run: the admitted axioms of each unit must not prove `false`
     canaries = []
